@@ -21,6 +21,7 @@ type c03Step struct {
 	Op  string `json:"op,omitempty"`
 	E   *Expr  `json:"e,omitempty"`
 	Val *mval  `json:"val,omitempty"`
+	As  string `json:"as,omitempty"` // declare: the "as <type>" clause
 }
 
 type c03Case struct {
@@ -43,9 +44,23 @@ func c03Script(c c03Case) string {
 			}
 			fmt.Fprintf(&b, "<<set $%s %s %s>>\nM%d\n", st.Var, op, printExpr(st.E, nil), i)
 		case "declare":
-			fmt.Fprintf(&b, "<<declare $%s = %s>>\nM%d\n", st.Var, printExpr(st.E, nil), i)
+			as := ""
+			if st.As != "" {
+				as = " as " + st.As
+			}
+			fmt.Fprintf(&b, "<<declare $%s = %s%s>>\nM%d\n", st.Var, printExpr(st.E, nil), as, i)
 		case "show":
 			fmt.Fprintf(&b, "S%d {cap($%s)}\n", i, st.Var)
+		case "poke-show":
+			// one step of the runner: the script reads the variable, host code called by the script writes it, the script reads it again
+			fmt.Fprintf(&b, "P%d {cap($%s)}{poke(%d)}{cap($%s)}\n", i, st.Var, i, st.Var)
+		case "poke-set":
+			// one step: read, host write, (compound) assignment
+			op := st.Op
+			if op == "=" {
+				op = "to"
+			}
+			fmt.Fprintf(&b, "<<call cap($%s)>>\n<<call poke(%d)>>\n<<set $%s %s %s>>\nM%d\n", st.Var, i, st.Var, op, printExpr(st.E, nil), i)
 		}
 	}
 	// the node jumps back to itself: the harness runs the history twice, so that every statement node is
@@ -127,6 +142,23 @@ func runC03(c c03Case) Verdict {
 		captured = append(captured, toMvals(args)...)
 		return variable.NewNumber(0), nil
 	})
+	writeToStorer := func(name string, v mval) {
+		switch v.T {
+		case 'n':
+			storer.SetNumberValue(name, v.N)
+		case 'b':
+			storer.SetBooleanValue(name, v.B)
+		case 's':
+			storer.SetStringValue(name, v.S)
+		}
+	}
+	dr.AddFunction("poke", func(args []*variable.Value) (*variable.Value, error) {
+		i := int(*args[0].Number)
+		v := *c.Steps[i].Val
+		v.fix()
+		writeToStorer(c.Steps[i].Var, v)
+		return variable.NewString(""), nil
+	})
 	next := func() (kind, text string) {
 		var el *ysgo.DialogueElement
 		var err error
@@ -190,7 +222,7 @@ func runC03(c c03Case) Verdict {
 			}
 		}
 		for i, st := range c.Steps {
-			if pass == 1 && atJump == nil && (st.K == "set" || st.K == "declare" || st.K == "show") {
+			if pass == 1 && atJump == nil && (st.K == "set" || st.K == "declare" || st.K == "show" || st.K == "poke-show" || st.K == "poke-set") {
 				// the next Next call performs the jump back to the node start: this is the state a snapshot captures
 				atJump = map[string]mval{}
 				for k, v := range m.store {
@@ -230,8 +262,21 @@ func runC03(c c03Case) Verdict {
 					compoundOnExisting++
 				}
 				cls = append(cls, fmt.Sprintf("op%s", st.Op))
+				before := map[string]mval{}
+				for k, v := range m.store {
+					before[k] = v
+				}
 				merr := m.assign(st.Var, st.Op, st.E)
 				kind, text := next()
+				if st.K == "declare" && st.As != "" && merr == nil && kind == "err" {
+					// what a clause naming another type than the value's means is not stated: the library ignores the clause; a
+					// library that refuses the statement is as good - provided that, like every failing statement, it changes nothing
+					if v, _ := evalExpr(st.E, m); v.T != map[string]byte{"number": 'n', "bool": 'b', "string": 's'}[st.As] {
+						m.store = before
+						merr = evalErrf("declared as another type")
+						cls = append(cls, "declare-as-mismatch-refused")
+					}
+				}
 				if kind == "panic" {
 					if merr != nil {
 						return Verdict{Discard: "panic on a failing statement (C06)"}
@@ -267,6 +312,60 @@ func runC03(c c03Case) Verdict {
 							}
 						}
 					}
+				}
+			case "poke-show":
+				old, existed := m.store[st.Var]
+				captured = nil
+				kind, text := next()
+				if kind == "panic" {
+					return failf("Next panicked: %s: %s", text, describe(i))
+				}
+				if !existed {
+					if kind != "err" {
+						return failf("reading the unknown variable $%s must fail, got %s %q: %s", st.Var, kind, text, describe(i))
+					}
+					break // the interpolations after the failing one are not evaluated: the host function did not run
+				}
+				v := *st.Val
+				v.fix()
+				m.store[st.Var] = v
+				if kind != "line" || len(captured) != 2 {
+					return failf("expected a line showing $%s twice, got %s %q (captured %v): %s", st.Var, kind, text, captured, describe(i))
+				}
+				if !sameVal(captured[0], old) || !sameVal(captured[1], v) {
+					return failf("within one step the script read $%s = %v, host code called by the script then wrote %v, and the script read %v: reads must go through the storer: %s", st.Var, captured[0], v, captured[1], describe(i))
+				}
+			case "poke-set":
+				old, existed := m.store[st.Var]
+				captured = nil
+				kind, text := next()
+				if kind == "panic" {
+					return failf("Next panicked: %s: %s", text, describe(i))
+				}
+				if !existed {
+					if kind != "err" {
+						return failf("reading the unknown variable $%s must fail, got %s %q: %s", st.Var, kind, text, describe(i))
+					}
+					kind, text = next()
+				} else if len(captured) < 1 || !sameVal(captured[0], old) {
+					return failf("the script read $%s = %v, want %v: %s", st.Var, captured, old, describe(i))
+				}
+				v := *st.Val
+				v.fix()
+				m.store[st.Var] = v // the host function has run
+				merr := m.assign(st.Var, st.Op, st.E)
+				if merr != nil {
+					failures++
+					if kind != "err" {
+						return failf("after host code called by the script wrote $%s = %v in the same step, the statement must fail (%v) but Next returned %s %q: %s", st.Var, v, merr, kind, text, describe(i))
+					}
+					kind, text = next()
+				}
+				if kind != "line" || text != fmt.Sprintf("M%d", i) {
+					if kind == "err" {
+						return failf("after host code called by the script wrote $%s = %v in the same step, the statement must succeed but Next failed: %s: %s", st.Var, v, text, describe(i))
+					}
+					return failf("expected the marker line M%d, got %s %q: %s", i, kind, text, describe(i))
 				}
 			case "show":
 				want, ok := m.store[st.Var]
@@ -315,7 +414,7 @@ func runC03(c c03Case) Verdict {
 
 func hasScriptStep(c c03Case) bool {
 	for _, s := range c.Steps {
-		if s.K == "set" || s.K == "declare" || s.K == "show" {
+		if s.K == "set" || s.K == "declare" || s.K == "show" || s.K == "poke-show" || s.K == "poke-set" {
 			return true
 		}
 	}
@@ -324,7 +423,7 @@ func hasScriptStep(c c03Case) bool {
 
 func hasHostWrite(c c03Case) bool {
 	for _, s := range c.Steps {
-		if s.K == "host-set" {
+		if s.K == "host-set" || s.K == "poke-show" || s.K == "poke-set" {
 			return true
 		}
 	}
@@ -336,9 +435,19 @@ func showC03Step(s c03Step) string {
 	case "set":
 		return fmt.Sprintf("<<set $%s %s %s>>", s.Var, s.Op, printExpr(s.E, nil))
 	case "declare":
+		if s.As != "" {
+			return fmt.Sprintf("<<declare $%s = %s as %s>>", s.Var, printExpr(s.E, nil), s.As)
+		}
 		return fmt.Sprintf("<<declare $%s = %s>>", s.Var, printExpr(s.E, nil))
 	case "show":
 		return "show $" + s.Var
+	case "poke-show", "poke-set":
+		v := *s.Val
+		v.fix()
+		if s.K == "poke-show" {
+			return fmt.Sprintf("in one step: read $%s, host code writes $%s = %v, read $%s", s.Var, s.Var, v, s.Var)
+		}
+		return fmt.Sprintf("in one step: read $%s, host code writes $%s = %v, <<set $%s %s %s>>", s.Var, s.Var, v, s.Var, s.Op, printExpr(s.E, nil))
 	case "host-set":
 		v := *s.Val
 		v.fix()
@@ -419,13 +528,21 @@ var c03Hist = Register(Prop[c03Case]{
 		n := rapid.IntRange(1, envInt("VERIF_C03_STEPS", 25)).Draw(t, "steps")
 		for i := 0; i < n; i++ {
 			name := rapid.SampledFrom(c03Vars).Draw(t, "var")
-			switch rapid.IntRange(0, 11).Draw(t, "step") {
+			switch rapid.IntRange(0, 13).Draw(t, "step") {
+			case 12:
+				v := genC03Value(t, rapid.SampledFrom([]byte{'n', 'n', 'b', 's'}).Draw(t, "type"))
+				c.Steps = append(c.Steps, c03Step{K: "poke-show", Var: name, Val: &v})
+			case 13:
+				v := genC03Value(t, rapid.SampledFrom([]byte{'n', 'n', 'b', 's'}).Draw(t, "type"))
+				op := rapid.SampledFrom([]string{"=", "+=", "+=", "-=", "*="}).Draw(t, "op")
+				c.Steps = append(c.Steps, c03Step{K: "poke-set", Var: name, Op: op, E: genC03Expr(t), Val: &v})
 			case 0, 1, 2, 3, 4:
 				op := rapid.SampledFrom([]string{"=", "=", "+=", "+=", "-=", "*=", "/=", "%="}).Draw(t, "op")
 				c.Steps = append(c.Steps, c03Step{K: "set", Var: name, Op: op, E: genC03Expr(t)})
 			case 5:
 				lit := []*Expr{num("3"), boolean(true), str("ab"), num("0.5"), boolean(false), str("")}
-				c.Steps = append(c.Steps, c03Step{K: "declare", Var: name, Op: "=", E: rapid.SampledFrom(lit).Draw(t, "lit")})
+				c.Steps = append(c.Steps, c03Step{K: "declare", Var: name, Op: "=", E: rapid.SampledFrom(lit).Draw(t, "lit"),
+					As: rapid.SampledFrom([]string{"", "", "number", "string", "bool"}).Draw(t, "as")})
 			case 6, 7:
 				c.Steps = append(c.Steps, c03Step{K: "show", Var: name})
 			case 8, 9:
